@@ -254,7 +254,10 @@ func runCrashCheck(t *testing.T, rep *mc.Reporter, check string, oracle func(scn
 		// (with resuming switched off the position lives in memory only and a process restart has none: what an
 		// in-process reconnection does then is a statement about reconnections - C06 - not about restarts)
 		if check == "C09" {
-			softCfgs = softCfgs[:2]
+			// C09 also holds for in-process reconnections with resuming switched off (no position on the target:
+			// the clause about the position in the block does not apply, the one about whole transactions does)
+			softCfgs = append(softCfgs[:2:2], aofCfg{Txn: true, Resume: false, Pipeline: false, Count: 2, Bytes: 1 << 20, DbMode: "id"},
+				aofCfg{Txn: true, Resume: false, Pipeline: true, Count: 1, Bytes: 1 << 20, DbMode: "id"})
 		}
 		L, mcr := 2, 1
 		if tier == "thorough" {
@@ -685,7 +688,7 @@ func oracleC09(scn crashScenario, rec *crashRec) mc.Result {
 				groupEnd = it.End
 			}
 		}
-		ok = false
+		ok = !scn.Cfg.Resume // with resuming switched off the tool stores no position on the target
 		for _, v := range b.cp {
 			if v >= groupEnd+aofS0 {
 				ok = true
